@@ -168,7 +168,11 @@ class AnnotGen:
                     syms = [sp for sp, ds in t.exact.items() for d in ds if " " not in sp and not d["prefix"]]
                     if syms:
                         suffix = "/# " + rng.choice(syms)
-                content.append(tag(node.name, suffix, node.path, "placeholder"))
+                ph_tag = tag(node.name, suffix, node.path, "placeholder")
+                if rng.random() < 0.3:
+                    content.append(group([ph_tag, self._plain_atom()]))      # the '#' tag one group deeper
+                else:
+                    content.append(ph_tag)
                 ph = node.path
             if rng.random() < 0.4:
                 content.append(group([self._plain_atom() for _ in range(rng.randrange(1, 3))]))
@@ -215,7 +219,10 @@ class AnnotGen:
             return t
         t = tag("Def-expand", suffix, self.sp["Def-expand"].path, "def-expand")
         t["def"], t["val"] = d["name"], val
-        return group([t, group(self.expansion(d, val), "def-content")], "def-expand-group")
+        kids = [t, group(self.expansion(d, val), "def-content")]
+        if rng.random() < 0.3:
+            kids.reverse()                       # the content group may be written before the tag
+        return group(kids, "def-expand-group")
 
     def expansion(self, d, val):
         content = copy.deepcopy(d["content"])
@@ -566,7 +573,10 @@ def mutate(gen, items, kind, rng):
                 return None
             t["name"], t["node"] = n.name, n.path
         suffix = "/" + d["name"] + ("/" + val if val else "")
-        g = group([tag("Def-expand", suffix, gen.sp["Def-expand"].path, "def-expand"), group(content)])
+        kids = [tag("Def-expand", suffix, gen.sp["Def-expand"].path, "def-expand"), group(content)]
+        if rng.random() < 0.5:
+            kids.reverse()                       # the content group may be written before the tag
+        g = group(kids)
         _insert_raw(items, rng, g)
         code = "DEF_EXPAND_INVALID"
     elif kind == "second-event-context":
